@@ -41,21 +41,22 @@ func (c *WarmUpTrafficShapingCalculator) BoundOwner() *TrafficShapingController 
 }
 
 func NewWarmUpTrafficShapingCalculator(owner *TrafficShapingController, rule *Rule) TrafficShapingCalculator {
-	if rule.WarmUpColdFactor <= 1 {
-		rule.WarmUpColdFactor = config.DefaultWarmUpColdFactor
+	coldFactor := rule.WarmUpColdFactor
+	if coldFactor <= 1 {
+		coldFactor = config.DefaultWarmUpColdFactor
 		logging.Warn("[NewWarmUpTrafficShapingCalculator] No set WarmUpColdFactor,use default warm up cold factor value", "defaultWarmUpColdFactor", config.DefaultWarmUpColdFactor)
 	}
 
-	warningToken := uint64((float64(rule.WarmUpPeriodSec) * rule.Threshold) / float64(rule.WarmUpColdFactor-1))
+	warningToken := uint64((float64(rule.WarmUpPeriodSec) * rule.Threshold) / float64(coldFactor-1))
 
-	maxToken := warningToken + uint64(2*float64(rule.WarmUpPeriodSec)*rule.Threshold/float64(1.0+rule.WarmUpColdFactor))
+	maxToken := warningToken + uint64(2*float64(rule.WarmUpPeriodSec)*rule.Threshold/float64(1.0+coldFactor))
 
-	slope := float64(rule.WarmUpColdFactor-1.0) / rule.Threshold / float64(maxToken-warningToken)
+	slope := float64(coldFactor-1.0) / rule.Threshold / float64(maxToken-warningToken)
 
 	warmUpTrafficShapingCalculator := &WarmUpTrafficShapingCalculator{
 		owner:             owner,
 		warmUpPeriodInSec: rule.WarmUpPeriodSec,
-		coldFactor:        rule.WarmUpColdFactor,
+		coldFactor:        coldFactor,
 		warningToken:      warningToken,
 		maxToken:          maxToken,
 		slope:             slope,
